@@ -11,7 +11,7 @@ import sys
 import traceback
 import warnings
 
-sys.path.insert(0, "/repo")
+sys.path.insert(0, __import__("os").environ.get("VERIF_REPO", "/repo"))
 sys.path.insert(0, "/verif/rtc")
 from collections import OrderedDict  # noqa: E402
 
